@@ -81,17 +81,19 @@ WordsUpTo(S, n) == IF n = 0 THEN {<<>>}
 
 MailParams == {"SIZE=num", "SIZE=over", "SIZE=junk", "SIZE=big", "SIZE=signed", "BODY=7BIT", "BODY=8BITMIME", "BODY=BINARYMIME", "BODY=junk",
                "SMTPUTF8", "REQUIRETLS", "RET=FULL", "RET=HDRS", "RET=junk", "ENVID=xtext", "ENVID=badxtext", "ENVID=empty",
-               "AUTH=mailbox", "AUTH=null", "AUTH=badxtext", "UNKNOWN=1", "UNKNOWN"}
+               "AUTH=mailbox", "AUTH=null", "AUTH=badxtext", "UNKNOWN=1", "UNKNOWN",
+               \* a raw "=" inside a value (esmtp-value excludes it; xtext writes it "+3D")
+               "ENVID=rawequals", "AUTH=rawequals"}
 RcptParams == {"NOTIFY=NEVER", "NOTIFY=SUCCESS,FAILURE", "NOTIFY=NEVER,SUCCESS", "NOTIFY=junk", "ORCPT=rfc822", "ORCPT=utf-8",
-               "ORCPT=badtype", "ORCPT=notype", "RRVS=time", "RRVS=junk", "UNKNOWN=1"}
+               "ORCPT=badtype", "ORCPT=notype", "ORCPT=rawequals", "RRVS=time", "RRVS=junk", "UNKNOWN=1"}
 
 KeyOf(p) == CASE p \in {"SIZE=num", "SIZE=over", "SIZE=junk", "SIZE=big", "SIZE=signed"} -> "SIZE"
               [] p \in {"BODY=7BIT", "BODY=8BITMIME", "BODY=BINARYMIME", "BODY=junk"} -> "BODY"
               [] p \in {"RET=FULL", "RET=HDRS", "RET=junk"} -> "RET"
-              [] p \in {"ENVID=xtext", "ENVID=badxtext", "ENVID=empty"} -> "ENVID"
-              [] p \in {"AUTH=mailbox", "AUTH=null", "AUTH=badxtext"} -> "AUTH"
+              [] p \in {"ENVID=xtext", "ENVID=badxtext", "ENVID=empty", "ENVID=rawequals"} -> "ENVID"
+              [] p \in {"AUTH=mailbox", "AUTH=null", "AUTH=badxtext", "AUTH=rawequals"} -> "AUTH"
               [] p \in {"NOTIFY=NEVER", "NOTIFY=SUCCESS,FAILURE", "NOTIFY=NEVER,SUCCESS", "NOTIFY=junk"} -> "NOTIFY"
-              [] p \in {"ORCPT=rfc822", "ORCPT=utf-8", "ORCPT=badtype", "ORCPT=notype"} -> "ORCPT"
+              [] p \in {"ORCPT=rfc822", "ORCPT=utf-8", "ORCPT=badtype", "ORCPT=notype", "ORCPT=rawequals"} -> "ORCPT"
               [] p \in {"RRVS=time", "RRVS=junk"} -> "RRVS"
               [] p \in {"UNKNOWN=1", "UNKNOWN"} -> "UNKNOWN"
               [] OTHER -> p
@@ -104,7 +106,8 @@ ExtOfKey(k) == CASE k \in {"RET", "ENVID", "NOTIFY", "ORCPT"} -> "DSN"
 \* ("SIZE=big": a value in the upper half of the 32-bit range, well-formed;
 \* "SIZE=signed": a sign is not part of 1*DIGIT)
 Malformed(p) == p \in {"SIZE=junk", "SIZE=signed", "BODY=junk", "RET=junk", "ENVID=badxtext", "ENVID=empty", "AUTH=badxtext",
-                       "NOTIFY=NEVER,SUCCESS", "NOTIFY=junk", "ORCPT=badtype", "ORCPT=notype", "RRVS=junk"}
+                       "NOTIFY=NEVER,SUCCESS", "NOTIFY=junk", "ORCPT=badtype", "ORCPT=notype", "RRVS=junk",
+                       "ENVID=rawequals", "AUTH=rawequals", "ORCPT=rawequals"}
 
 \* en: set of enabled extensions; sizeLimit: a size limit is configured
 ParamBad(p, en, sizeLimit) ==
